@@ -233,7 +233,7 @@ def gen_case(rng, dtypes):
             case["margins"] = True
         else:
             r = int(rng.integers(1, nk + 1))
-            case["margins"] = sorted(int(x) for x in rng.choice(nk, size=r, replace=False))
+            case["margins"] = [int(x) for x in rng.choice(nk, size=r, replace=False)]  # positions in any order
         case["sort"] = bool(rng.random() < 0.8)
         common.add_route(rng, case, 0.2)
     else:
